@@ -22,6 +22,10 @@ def ob_ltf(W, sched, part, bound=12):
     return SC.ob_ltf(W, sched, part, bound)
 
 
+def ob_vec(W, part):
+    return SC.ob_vec(W, part)
+
+
 def obligations(tier):
     obs = []
     for sched in ("ltf", "lpsd"):
@@ -29,4 +33,5 @@ def obligations(tier):
             obs.append({"name": "%s/%s" % (sched, part), "fn": "ob_ltf", "params": {"sched": sched, "part": part}, "timeout": 30 if tier == "quick" else 200})
         b = 12 if tier == "quick" else 24
         obs.append({"name": "%s/seg-N%d" % (sched, b), "fn": "ob_ltf", "params": {"sched": sched, "part": "seg", "bound": b}, "timeout": 60 if tier == "quick" else 600, "weight": 10})
+    obs.append({"name": "vec/step", "fn": "ob_vec", "params": {"part": "step"}, "timeout": 30 if tier == "quick" else 200})
     return obs
